@@ -8,7 +8,7 @@ import random
 import sys
 import time
 
-from . import evidence, kf, pool
+from . import e1, evidence, kf, pool
 from .ngorun import DEFAULT, TRAITS
 
 ROOT = os.path.dirname(os.path.dirname(os.path.abspath(__file__)))
@@ -297,8 +297,25 @@ def finish_e1(prop, tier, seed, tasks, results, known, t0, extra_cov=None, extra
         if r["status"] == "violation":
             hit = None
             for e in known:
-                if kf.match_input(e, r.get("source", t["text"]), t["enabled"], r.get("result", "")) or kf.match_program(e, r.get("source", t["text"]), t["enabled"]):
+                if kf.match_input(e, r.get("source", t["text"]), t["enabled"], r.get("result", "")):
                     hit = e
+                    break
+            if hit is None:
+                for e in known:
+                    if not kf.match_program(e, r.get("source", t["text"]), t["enabled"]):
+                        continue
+                    # a program-identified finding names the trait that causes it: the violation is attributed to it only
+                    # if it disappears when that trait is switched off (otherwise something else is wrong as well)
+                    rest = sorted(kf.enabled_set(t["enabled"]) - set(e["match"].get("needs_traits", [])))
+                    try:
+                        r2 = e1.run_task(dict(t, enabled=rest))
+                    except Exception as exc:  # noqa
+                        r2 = {"status": "error", "reason": str(exc)}
+                    r["ablation"] = {"finding": e["id"], "enabled": rest, "status": r2["status"]}
+                    if r2["status"] == "violation":
+                        hit = next((k for k in known if kf.match_input(k, r2.get("source", t["text"]), rest, r2.get("result", ""))), None)
+                    else:
+                        hit = e
                     break
             if hit is not None:
                 known_hits.setdefault(hit["id"], []).append(r)
